@@ -6,6 +6,7 @@ import (
 	"os"
 
 	"github.com/spq/pkappa2/verifx/c17"
+	"github.com/spq/pkappa2/verifx/c18"
 )
 
 func main() {
@@ -19,6 +20,8 @@ func main() {
 	switch *prop {
 	case "C17":
 		code = c17.Run(*tier)
+	case "C18":
+		code = c18.Run(*tier)
 	default:
 		fmt.Fprintf(os.Stderr, "unknown property %q\n", *prop)
 		code = 2
